@@ -14,8 +14,8 @@ CONSTANTS MaxNodes, MaxAttrs,
           Skels      \* which starting skeletons: subset of {"A", "B"}
 
 \* ---- the synthetic schema (row ids 1..7); the harness builds the same table
-Row == [i \in 1..7 |->
-  CASE i = 1 -> [name |-> "m",        type |-> "!", attrs |-> {"model"},                 subs |-> <<2, 3, 4>>,
+Row == [i \in 1..8 |->
+  CASE i = 1 -> [name |-> "m",        type |-> "!", attrs |-> {"model"},                 subs |-> <<2, 3, 4, 8>>,
                  cons |-> {}]
     [] i = 2 -> [name |-> "opt",      type |-> "?", attrs |-> {"a", "b", "c"},           subs |-> <<>>,
                  cons |-> {[kind |-> "e", b |-> <<{"a"}, {"b"}>>], [kind |-> "r", b |-> <<{"c"}, {"a"}>>]}]
@@ -26,9 +26,15 @@ Row == [i \in 1..7 |->
                  cons |-> {}]        \* no constraint here: a duplicated inertial violates nothing but the cardinality
     [] i = 6 -> [name |-> "geom",     type |-> "*", attrs |-> {"size", "type", "fromto"}, subs |-> <<>>,
                  cons |-> {[kind |-> "o", b |-> <<{"size"}, {"fromto"}>>], [kind |-> "t", b |-> <<{"size", "type"}>>]}]
-    [] OTHER -> [name |-> "site",     type |-> "*", attrs |-> {"pos"},                   subs |-> <<>>, cons |-> {}]]
-Tags  == {"m", "opt", "req", "body", "inertial", "geom", "site", "worldbody", "frame", "replicate", "bogus"}
-Attrs == {"model", "a", "b", "c", "x", "name", "pos", "quat", "euler", "mass", "size", "type", "fromto", "zz"}
+    [] i = 7 -> [name |-> "site",     type |-> "*", attrs |-> {"pos"},                   subs |-> <<>>, cons |-> {}]
+    \* bundles of several attributes (as on <connect>): one complete bundle is required, the bundles exclude each other
+    [] OTHER -> [name |-> "conn",     type |-> "*", attrs |-> {"s1", "s2", "b1", "b2", "an"}, subs |-> <<>>,
+                 cons |-> {[kind |-> "o", b |-> <<{"s1", "s2"}, {"b1", "an"}>>],
+                           [kind |-> "e", b |-> <<{"s1", "s2"}, {"b1", "b2", "an"}>>],
+                           [kind |-> "t", b |-> <<{"s1"}, {"s2"}>>]}]]
+Tags  == {"m", "opt", "req", "body", "inertial", "geom", "site", "conn", "worldbody", "frame", "replicate", "bogus"}
+Attrs == {"model", "a", "b", "c", "x", "name", "pos", "quat", "euler", "mass", "size", "type", "fromto", "zz",
+          "s1", "s2", "b1", "b2", "an"}
 Alias == {"worldbody", "frame", "replicate"}
 
 VARIABLES doc, nattr, base, ev
@@ -83,7 +89,8 @@ Verdict(d) == [valid |-> Valid(d), validcode |-> ValidCode(d)]
 \* documents grow from a conforming skeleton: the smallest one, <m><req/><worldbody/></m>, or one with two
 \* nested bodies (cardinalities must be enforced per element also when the recursive row re-enters itself)
 SkelA == {[path |-> <<>>, tag |-> "m", attrs |-> {}], [path |-> <<1>>, tag |-> "req", attrs |-> {}],
-          [path |-> <<2>>, tag |-> "worldbody", attrs |-> {}]}
+          [path |-> <<2>>, tag |-> "worldbody", attrs |-> {}],
+          [path |-> <<3>>, tag |-> "conn", attrs |-> {"b1", "an"}]}
 SkelB == SkelA \cup {[path |-> <<2, 1>>, tag |-> "body", attrs |-> {}], [path |-> <<2, 1, 1>>, tag |-> "body", attrs |-> {}]}
 Init == /\ doc \in ({SkelA : x \in Skels \cap {"A"}} \cup {SkelB : x \in Skels \cap {"B"}}) /\ nattr = 0 /\ base = Cardinality(doc)
         /\ ev = Verdict(doc)
